@@ -1,4 +1,4 @@
-import LJT.Model.Arith
+import LJT.Model.ArithBin
 import LJT.Model.ProgHuff
 /-! The arithmetic *encoder* of src/jcarith.c: the QM coder of T.81 Annex D as coded
 (`arith_encode`, `finish_pass`: carry propagation over the buffered byte, stacked 0xFF bytes and
@@ -9,10 +9,7 @@ every scan, no DHT).  The binarisation is a pure function from coefficients to a
 (statistics bin, decision) pairs; the coder folds over that list.  Bin numbering is that of
 `Model/Arith.lean` (the decoder model). -/
 namespace LJT.ArithEnc
-open LJT LJT.Arith LJT.T81 LJT.T81Enc
-
-/-- a binary decision: statistics bin and value -/
-abbrev Dn := Nat × Nat
+open LJT LJT.Arith LJT.ArithBin LJT.T81 LJT.T81Enc
 
 structure ES where
   c : Nat
@@ -105,99 +102,6 @@ def finish (s : ES) : ES :=
 /-- the bytes of one restart interval coded from a decision list -/
 def codeInterval (ds : List Dn) : List Nat := (finish (ds.foldl encode ES.init)).out.toList
 
-/-! ### binarisation -/
-
-/-- Figure F.8 / F.9 for a DC difference magnitude `v1 = |v| - 1`, first bin `st`: decisions,
-`m` (the category mask) -/
-def dcMag (tbl st v1 : Nat) : List Dn × Nat :=
-  if v1 == 0 then ([(st, 0)], 0)
-  else
-    let n := Nat.log2 v1
-    let x1 := dcBase tbl + 20
-    let un := (st, 1) :: (List.range n).map (fun i => (x1 + i, 1))
-    let stF := if n == 0 then x1 else x1 + n
-    let bits := (List.range n).map (fun i => (stF + 14, (v1 >>> (n - 1 - i)) % 2))
-    (un ++ [(stF, 0)] ++ bits, 2 ^ n)
-
-/-- Figure F.4: a DC difference with conditioning context `ctx`: decisions and the new context -/
-def dcDiff (tbl ctx L U : Nat) (v : Int) : List Dn × Nat :=
-  let st := dcBase tbl + ctx
-  if v == 0 then ([(st, 0)], 0)
-  else
-    let neg := decide (v < 0)
-    let st2 := st + (if neg then 3 else 2)
-    let ctx1 := if neg then 8 else 4
-    let mg := dcMag tbl st2 (v.natAbs - 1)
-    let m := mg.2
-    let ctx' := if m < (2 ^ L) / 2 then 0 else if m > (2 ^ U) / 2 then ctx1 + 8 else ctx1
-    ((st, 1) :: (st + 1, if neg then 1 else 0) :: mg.1, ctx')
-
-/-- sign and magnitude of a nonzero AC coefficient at zigzag position `k` whose run bins start at `st` -/
-def acVal (tbl K k st : Nat) (neg : Bool) (av : Nat) : List Dn :=
-  let st2 := st + 2
-  let v1 := av - 1
-  let hd : List Dn := [(st + 1, 1), (fixedBin, if neg then 1 else 0)]
-  if v1 == 0 then hd ++ [(st2, 0)]
-  else
-    let n := Nat.log2 v1
-    if n == 0 then hd ++ [(st2, 1), (st2, 0)]
-    else
-      let x := acBase tbl + (if k ≤ K then 189 else 217)
-      let un := (List.range (n - 1)).map (fun i => (x + i, 1))
-      let stF := x + (n - 1)
-      let bits := (List.range n).map (fun i => (stF + 14, (v1 >>> (n - 1 - i)) % 2))
-      hd ++ [(st2, 1), (st2, 1)] ++ un ++ [(stF, 0)] ++ bits
-
-/-- index of the last coefficient with nonzero magnitude among zigzag positions 1..se (0 if none) -/
-def lastNz (mag : Nat → Nat) (se : Nat) : Nat :=
-  ((List.range se).map (· + 1)).foldl (fun acc k => if mag k != 0 then k else acc) 0
-
-/-- Figure F.5: the AC coefficients `ss..se` of a block; `mag k`, `neg k` = magnitude (after the
-point transform) and sign of the coefficient at zigzag position `k` -/
-def acFirst (tbl K ss se : Nat) (mag : Nat → Nat) (neg : Nat → Bool) : List Dn := Id.run do
-  let ke := lastNz mag se
-  let mut out : List Dn := []
-  let mut k := ss
-  let mut fuel := 70
-  while k ≤ ke && fuel > 0 do
-    fuel := fuel - 1
-    let mut st := acBase tbl + 3 * (k - 1)
-    out := out ++ [(st, 0)]
-    let mut f2 := 70
-    while mag k == 0 && f2 > 0 do
-      f2 := f2 - 1
-      out := out ++ [(st + 1, 0)]
-      st := st + 3
-      k := k + 1
-    out := out ++ acVal tbl K k st (neg k) (mag k)
-    k := k + 1
-  if k ≤ se then out := out ++ [(acBase tbl + 3 * (k - 1), 1)]
-  return out
-
-/-- Figure G.10: AC refinement; `mag` at level Al, `magH` at level Ah -/
-def acRefine (tbl ss se : Nat) (mag magH : Nat → Nat) (neg : Nat → Bool) : List Dn := Id.run do
-  let ke := lastNz mag se
-  let kex := lastNz magH ke
-  let mut out : List Dn := []
-  let mut k := ss
-  let mut fuel := 70
-  while k ≤ ke && fuel > 0 do
-    fuel := fuel - 1
-    let mut st := acBase tbl + 3 * (k - 1)
-    if k > kex then out := out ++ [(st, 0)]
-    let mut f2 := 70
-    while mag k == 0 && f2 > 0 do
-      f2 := f2 - 1
-      out := out ++ [(st + 1, 0)]
-      st := st + 3
-      k := k + 1
-    let v := mag k
-    if v / 2 != 0 then out := out ++ [(st + 2, v % 2)]
-    else out := out ++ [(st + 1, 1), (fixedBin, if neg k then 1 else 0)]
-    k := k + 1
-  if k ≤ se then out := out ++ [(acBase tbl + 3 * (k - 1), 1)]
-  return out
-
 /-! ### scans -/
 
 /-- decisions of one scan, one list per restart interval.  `scs`: (frame component index, dc table,
@@ -241,14 +145,13 @@ def scanDecisions (f : Frame) (hmax vmax : Nat) (coef : Nat → Nat → Nat → 
           let zzb : List Int := if real then ProgHuff.blockZZ coef ci (my * bv + by_) (mx * bh + bx) else prevDC :: List.replicate 63 0
           let dc := zzb.headD 0
           prevDC := dc
-          let mag := fun (k : Nat) => (zzb.getD k 0).natAbs / 2 ^ al
-          let magH := fun (k : Nat) => (zzb.getD k 0).natAbs / 2 ^ ah
-          let neg := fun (k : Nat) => decide (zzb.getD k 0 < 0)
+          let band := fun (lo hi : Nat) => (List.range (hi + 1 - lo)).map (fun j =>
+            ((zzb.getD (lo + j) 0).natAbs / 2 ^ al, decide (zzb.getD (lo + j) 0 < 0)))
           if !prog then
             let (ds, cx) := dcDiff dtbl (ctx.getD i 0) 0 1 (dc - lastDC.getD i 0)
             if dc - lastDC.getD i 0 != 0 then lastDC := lastDC.setIfInBounds i dc
             ctx := ctx.setIfInBounds i cx
-            cur := cur.push (ds ++ acFirst atbl 5 1 63 mag neg)
+            cur := cur.push (ds ++ acF atbl 5 false 1 (band 1 63))
           else if ss == 0 then
             if ah == 0 then
               let mval := ProgHuff.asr dc al
@@ -259,8 +162,8 @@ def scanDecisions (f : Frame) (hmax vmax : Nat) (coef : Nat → Nat → Nat → 
             else
               cur := cur.push [(fixedBin, ((ProgHuff.asr dc al) % 2).toNat)]
           else
-            if ah == 0 then cur := cur.push (acFirst atbl 5 ss se mag neg)
-            else cur := cur.push (acRefine atbl ss se mag magH neg)
+            if ah == 0 then cur := cur.push (acF atbl 5 false ss (band ss se))
+            else cur := cur.push (acR atbl false ss (band ss se))
   ivs := ivs.push cur.toList.flatten
   return ivs.toList
 
